@@ -126,6 +126,35 @@ def render_ops(r, ops, scope):
                     r.text.append(";†⅛")
                     r.expect.append(("S", sid))
                     r.decode.append(None)
+                elif how == "red":
+                    # a lambda DECLARED with one argument but called with two by reduce (R): the call's arguments are both
+                    # of them.  ⟨A|B|C⟩ λ1|__ body 0;R_  -> calls (A, B) -> 0, then (0, C)
+                    a3 = r.args_for(3)
+                    a3 = [x if not isinstance(x, list) else 2900 + 10 * r.next_scope for x in a3]   # plain numbers here
+                    r.scopes[sid] = [a3[0], a3[1]]
+                    sid2 = r.new_scope([0, a3[2]])
+                    r.text.append("⟨" + "|".join(lit(x) for x in a3) + "⟩λ1|__")
+                    sub = R()
+                    sub.next_scope = r.next_scope + 1
+                    sub.nfun = r.nfun + 1
+                    render_ops(sub, body, "CUR")
+                    if sub.scopes or sub.pending:
+                        raise ValueError("nested scope inside a reduce body is not generated")
+                    r.text += sub.text
+                    r.text.append("0;R_")
+                    for s_ in (sid, sid2):
+                        for e in sub.expect:
+                            r.expect.append(("S", s_) if e == ("S", "CUR") else e)
+                        r.decode += sub.decode
+                elif how == "funx":
+                    # named function whose NAMED parameter comes before a count: @f:x:k| - x takes the top entry, the
+                    # next k entries are the call's arguments
+                    r.nfun += 1
+                    name = "f" + "abcdefghij"[r.nfun % 10] + "lmnopqrstu"[(r.nfun // 10) % 10]
+                    extra = 2990 + 10 * sid
+                    r.text.append(f"@{name}:x:{k}|" + "_" * k)
+                    render_ops(r, body, sid)
+                    r.text.append(f";{lits}{extra} @{name};W_")
                 elif how == "funs":
                     # named function with a numeric parameter called on a stack that holds one argument too few
                     # (top level only): the missing argument is an implicit read of the caller, i.e. the next
@@ -242,9 +271,10 @@ INNER = st.one_of(st.just(("E",)), st.just(("I1",)), st.just(("I1",)))
 
 def scope(depth):
     body = st.lists(INNER if depth == 0 else st.one_of(INNER, INNER, scope(depth - 1)), min_size=1, max_size=4)
-    plain = st.tuples(st.sampled_from(["lam", "fun", "lam0"] + (["funs"] if depth == 1 else [])), st.integers(1, 3), body).map(lambda t: ("S", t[0], t[1], t[2]))
+    plain = st.tuples(st.sampled_from(["lam", "fun", "lam0", "funx"] + (["funs"] if depth == 1 else [])), st.integers(1, 3), body).map(lambda t: ("S", t[0], t[1], t[2]))
     mp = st.lists(INNER, min_size=1, max_size=3).map(lambda b: ("S", "map", 1, b))
-    return st.one_of(plain, plain, mp)
+    rd = st.lists(INNER, min_size=1, max_size=4).map(lambda b: ("S", "red", 2, b))
+    return st.one_of(plain, plain, mp, rd)
 
 
 HISTORY = st.lists(st.one_of(TOP, TOP, scope(1)), min_size=1, max_size=12)
@@ -271,7 +301,8 @@ def _do(rec, ops, in_specs, cls):
 def _shard_exh(rec, arg):
     shard, nshards, maxlen = arg
     alphabet = [("E",), ("I1",), ("I2",), ("I3",), ("L", ["E", "I"]), ("S", "lam", 2, [("I1",), ("E",), ("I1",), ("I1",)]),
-                ("S", "fun", 1, [("E",), ("I1",)]), ("S", "map", 1, [("I1",), ("E",)]), ("S", "lam0", 1, [("I1",)]), ("S", "funs", 2, [("I1",), ("E",), ("I1",)])]
+                ("S", "fun", 1, [("E",), ("I1",)]), ("S", "map", 1, [("I1",), ("E",)]), ("S", "lam0", 1, [("I1",)]), ("S", "funs", 2, [("I1",), ("E",), ("I1",)]), ("S", "red", 2, [("I1",), ("I1",), ("E",), ("I1",)]),
+                ("S", "funx", 2, [("I1",), ("I1",), ("I1",)])]
     i = 0
     for n_in in range(0, 4):
         ins = [1000 + j for j in range(n_in)]
@@ -301,7 +332,7 @@ def run(rec, tier, seed):
     quick = tier == "quick"
     ns = campaign.NCPU
     campaign.parallel(rec, _shard_exh, [(s, ns, 3 if quick else 4) for s in range(ns)])
-    rec.exhaustive.append(f"all histories of length<={3 if quick else 4} over 10 operation kinds x 0..3 inputs")
+    rec.exhaustive.append(f"all histories of length<={3 if quick else 4} over 12 operation kinds x 0..3 inputs")
     n = 150 if quick else 6000
     campaign.parallel(rec, _shard_hyp, [(seed * 1000 + i, n) for i in range(ns)])
 
@@ -314,7 +345,7 @@ def _ops_from_json(x):
             out.append((k,))
         elif k == "L" and len(op) == 2 and op[1] and all(i in ("E", "I") for i in op[1]):
             out.append(("L", list(op[1])))
-        elif k == "S" and len(op) == 4 and op[1] in ("lam", "fun", "map", "lam0", "funs") and isinstance(op[2], int) and 1 <= op[2] <= 3:
+        elif k == "S" and len(op) == 4 and op[1] in ("lam", "fun", "map", "lam0", "funs", "red", "funx") and isinstance(op[2], int) and 1 <= op[2] <= 3:
             body = _ops_from_json(op[3])
             if not body or any(b[0] not in ("E", "I1", "S") for b in body):
                 raise ValueError(op)
